@@ -11,8 +11,8 @@ import (
 // What Start does, minus provider selection and the signal handler:
 // start the given provider, announce, and set the report callback.
 func (m *MdnsManager) VerifStartWithProvider(provider api.MdnsProviderInterface, cb api.MdnsReportInterface) error {
-	m.mdnsProvider = provider
-	_ = m.mdnsProvider.Start(true, m.processMdnsEntry)
+	m.setProvider(provider)
+	_ = provider.Start(true, m.processMdnsEntry)
 
 	if err := m.AnnounceMdnsEntry(); err != nil {
 		return err
